@@ -171,6 +171,27 @@ fn state_model(n: usize) -> Arc<StateModel> {
 
 fn cost_model(case: &C07Case, weights: &[f64], nets: &[NetSpec], sm: Arc<StateModel>) -> Result<CostModel, String> {
     let n = weights.len();
+    // a third of the cases whose rates can be written in a configuration obtain the model the
+    // way the application does: CostModelBuilder from a [cost] section (with other weights), then
+    // CostModelService::build with the weights as the *query's* override (zeros and negatives
+    // included - the query's map replaces the configured one entry for entry)
+    let writable = nets.iter().all(|x| matches!(x, NetSpec::None))
+        && case.rates.iter().all(|r| !matches!(r, RateSpec::Combined(_)));
+    if writable && (case.edge as usize + n) % 3 == 0 {
+        let mut rates = serde_json::Map::new();
+        let mut cfg_w = serde_json::Map::new();
+        let mut q_w = serde_json::Map::new();
+        for i in 0..n {
+            rates.insert(fname(i), case.rates[i].to_json());
+            cfg_w.insert(fname(i), json!(1.0 + i as f64));
+            q_w.insert(fname(i), json!(weights[i]));
+        }
+        let cfg = json!({"vehicle_rates": rates, "weights": cfg_w, "cost_aggregation": if case.mul { "mul" } else { "sum" }});
+        let svc = routee_compass::app::compass::config::cost_model::cost_model_builder::CostModelBuilder {}
+            .build(&cfg)
+            .map_err(|e| e.to_string())?;
+        return svc.build(&json!({"weights": q_w}), sm).map_err(|e| e.to_string());
+    }
     let w: HashMap<String, f64> = (0..n).map(|i| (fname(i), weights[i])).collect();
     let r = (0..n).map(|i| (fname(i), case.rates[i].to_impl())).collect();
     let nr = (0..n)
@@ -221,7 +242,7 @@ impl Prop for C07 {
         "C07"
     }
     fn rule(&self) -> String {
-        "generated: 1-8 state features; weights in [-10,10] incl. zeros with non-zero sum; vehicle rates zero/raw/factor/offset/combined(depth<=3) with parameters in [-1e3,1e3]; network rates none/edge lookup/edge-pair lookup/combined (nested, depth<=3); one case in 5 scales the weight vector by 1e-6..1e-16 so that positive sums lie far below the floor; aggregation sum or mul; previous state and the state changes of the turn and of the traversal in [-1e6,1e6] incl. zero and negative changes; direct calls of traversal_cost/access_cost/cost_estimate plus EdgeTraversal::forward_traversal with harness models that apply exactly the generated changes. non-trivial = the un-floored total is <= 0 (floor exercised) or at least two non-zero-weight features contribute with opposite signs".to_string()
+        "generated: 1-8 state features; weights in [-10,10] incl. zeros with non-zero sum; vehicle rates zero/raw/factor/offset/combined(depth<=3) with parameters in [-1e3,1e3]; network rates none/edge lookup/edge-pair lookup/combined (nested, depth<=3); one case in 5 scales the weight vector by 1e-6..1e-16 so that positive sums lie far below the floor; aggregation sum or mul; previous state and the state changes of the turn and of the traversal in [-1e6,1e6] incl. zero and negative changes; the cost model built directly or (rates a configuration can express, a third of those cases) through CostModelBuilder + CostModelService::build with the weights as the query's override; direct calls of traversal_cost/access_cost/cost_estimate plus EdgeTraversal::forward_traversal with harness models that apply exactly the generated changes. non-trivial = the un-floored total is <= 0 (floor exercised) or at least two non-zero-weight features contribute with opposite signs".to_string()
     }
     fn cases(&self, tier: Tier) -> u32 {
         tier.pick(200_000, 8_000_000)
